@@ -29,7 +29,7 @@ const verif::Info verif_info = {
     "times, or two occurrences overlap, or a first-byte hit fails later, or an occurrence straddles start or limit, or a proper prefix of "
     "the needle runs past the end of the haystack. Extension: every case also runs ALL char8_t overloads (find/find_last/contains with (pointer,length) and C string, starts_with/ends_with) against the same "
     "model as their const char* siblings, and every overload in the default case mode; new needle kinds: a lone lead byte / the head of a multi-byte character cut short / continuation bytes only (not well-formed UTF-8 "
-    "on their own). Long haystacks (first byte FE: 41..8192 bytes; F9..FC: 8..48 KB; FD: directed, explicit content): periodic background (period 1..8 over {a b A B c NUL e-acute euro z Z @ [ `}), needle of 2..3000 bytes "
+    "on their own). Long haystacks (first byte FE or F8: 41..8192 bytes; F9..FC: 8..48 KB; FD: directed, explicit content): periodic background (period 1..8 over {a b A B c NUL e-acute euro z Z @ [ `}), needle of 2..3000 bytes "
     "(lengths 17, 31/32/33, 63/64/65, 127/128, 255/256/257, 511/512, 1023/1024/1025, 1500, 2047/2048, 3000 or drawn) that is a chunk of the background with one foreign breaker byte late or early (a partial match at every period, "
     "overlapping the real match), a foreign text (optionally with an embedded NUL), or a pure chunk (dense overlapping occurrences; <= 300 in <= 1200 bytes), planted 0..3 times: exactly at the end, at 0, anywhere, one before the end, with "
     "0..len of its bytes before the edge of block 1..3 of 64/256/1024/4096/16384/16386 bytes counted from the start or from the END, adjacent to / overlapping the previous plant, as a near miss, case-flipped; start in {0, first occurrence -1/+0/+1, "
@@ -567,8 +567,8 @@ int verif_case(const uint8_t *data, size_t size, Case &c) {
     verif::Reader r(data, size, c);
     SearchCase k;
     uint8_t mode = r.u8();
-    // FE: generated long haystack (41..8192 bytes); F9..FC: generated big haystack (8..48 KB); FD: directed long (explicit content)
-    if (mode >= 0xF9 && mode <= 0xFE) return run_long(r, c, mode);
+    // FE, F8: generated long haystack (41..8192 bytes); F9..FC: generated big haystack (8..48 KB); FD: directed long (explicit content)
+    if (mode >= 0xF8 && mode <= 0xFE) return run_long(r, c, mode == 0xF8 ? 0xFE : mode);
     if (mode == 0xFF) {
         size_t hl = r.u8(), nl = r.u8();
         k.null_needle = (r.u8() & 1) != 0;
